@@ -119,6 +119,11 @@ pub struct World {
     pub gone_write_err: (u64, u64),
     /// a task panicked: h2's locks may be poisoned, stop the execution and leak the world
     pub poisoned: bool,
+    /// scenario-level gate: handlers marked `respond_gate` wait until the script opens it
+    pub gate_open: bool,
+    pub gate_wakers: Vec<Waker>,
+    /// tasks waiting for the rest of the world to become quiescent (scripted peers)
+    pub idle_waiters: Vec<Waker>,
     /// activity counter: bumped by every I/O byte and API event; used by the busy-loop detector
     pub activity: u64,
 }
@@ -135,6 +140,9 @@ pub fn install(seed: u64, sched: Sched) {
         inject_max: 0,
         gone_write_err: (1, 2),
         poisoned: false,
+        gate_open: false,
+        gate_wakers: Vec::new(),
+        idle_waiters: Vec::new(),
         activity: 0,
     };
     WORLD.with(|c| *c.borrow_mut() = Some(w));
@@ -409,7 +417,18 @@ pub fn run(max_steps: u64) -> RunEnd {
         }
         let c = with(choose);
         match c {
-            None => return RunEnd::Quiescent,
+            None => {
+                // nothing can run: tasks that asked to be told about this moment continue now
+                let ws = with(|w| std::mem::take(&mut w.idle_waiters));
+                if ws.is_empty() {
+                    return RunEnd::Quiescent;
+                }
+                let prev = CURRENT.with(|c| c.replace(CAUSE_WORLD));
+                for w in ws {
+                    w.wake();
+                }
+                CURRENT.with(|c| c.set(prev));
+            }
             Some(Cand::Task(id)) => poll_task(id, false),
             Some(Cand::World(pi, d, k)) => world_event(pi, d, k),
         }
@@ -474,6 +493,45 @@ pub fn maybe_inject() {
         }
     }
     INJECT_DEPTH.with(|c| c.set(0));
+}
+
+pub fn open_gate() {
+    let ws = with(|w| {
+        w.gate_open = true;
+        std::mem::take(&mut w.gate_wakers)
+    });
+    for w in ws {
+        w.wake();
+    }
+}
+
+/// Resolves once the scenario gate is open.
+pub fn poll_gate(cx: &mut Context<'_>) -> Poll<()> {
+    with(|w| {
+        if w.gate_open {
+            Poll::Ready(())
+        } else {
+            w.gate_wakers.push(cx.waker().clone());
+            Poll::Pending
+        }
+    })
+}
+
+/// Future body: resolves the next time the whole world (everything but parked idle-waiters) is quiescent.
+pub fn poll_world_idle(cx: &mut Context<'_>, armed: &mut bool) -> Poll<()> {
+    if *armed {
+        return Poll::Ready(());
+    }
+    *armed = true;
+    with(|w| w.idle_waiters.push(cx.waker().clone()));
+    Poll::Pending
+}
+
+/// True when nothing but the calling task could run: no other runnable task, no world event.
+/// Lets a scripted peer wait until the endpoint under test has finished reacting.
+pub fn others_idle() -> bool {
+    let me = current();
+    with(|w| candidates(w, true, true).into_iter().all(|c| matches!(c, Cand::Task(id) if id == me)))
 }
 
 pub fn push_ev(conn: u8, k: EvK) -> u64 {
